@@ -69,6 +69,17 @@ func genArgv(r *rng.R, names []string, kinds map[string]string) []string {
 	return argv
 }
 
+// conversion records for every word and for every value written as -name=value
+func convAll(argv []string) J {
+	words := append([]string{}, argv...)
+	for _, a := range argv {
+		if i := strings.Index(a, "="); i >= 0 {
+			words = append(words, a[i+1:])
+		}
+	}
+	return convRecord(words)
+}
+
 func errClass(err error) string {
 	if err == flag.ErrHelp {
 		return "help"
@@ -149,7 +160,7 @@ func frontStream(c *Ctx) {
 		if err != nil {
 			tag = "err=" + fmt.Sprint(impl["error"])
 		}
-		c.Emit(J{"op": "flags.parse", "specs": specs, "argv": argv, "conv": convRecord(argv)}, impl, "flags", tag)
+		c.Emit(J{"op": "flags.parse", "specs": specs, "argv": argv, "conv": convAll(argv)}, impl, "flags", tag)
 	}
 	// ---- front.parse
 	frontNames := []string{"f", "debug", "v", "h", "t", "keep", "d", "w", "gocmd", "goos", "goarch", "ldflags", "l", "version", "init", "clean", "compile"}
@@ -202,19 +213,9 @@ func frontStream(c *Ctx) {
 		case err == flag.ErrHelp:
 			impl["result"] = "usage"
 		case err != nil:
-			s := err.Error()
-			switch {
-			case strings.Contains(s, "cannot be used simultaneously"):
-				impl["result"] = "severalCommands"
-			case strings.Contains(s, "only apply when running with -compile"):
-				impl["result"] = "goosWithoutCompile"
-			case strings.Contains(s, "can only show help for a single target"):
-				impl["result"] = "helpSeveralTargets"
-			case strings.Contains(s, "unexpected arguments to command"):
-				impl["result"] = "strayArgs"
-			default:
-				impl["result"] = "flag:" + errClass(err)
-			}
+			// after a flag error mage.Parse goes on with what was parsed so far and may report one of its own checks instead;
+			// either way it is misuse (exit 2): only the class is compared
+			impl["result"] = "misuse"
 		default:
 			args := inv.Args
 			if args == nil {
@@ -224,7 +225,7 @@ func frontStream(c *Ctx) {
 				"list": inv.List, "help": inv.Help, "keep": inv.Keep, "timeout": fmt.Sprint(int64(inv.Timeout)), "compileOut": inv.CompileOut, "goos": inv.GOOS,
 				"goarch": inv.GOARCH, "ldflags": inv.Ldflags, "args": args, "goCmd": inv.GoCmd, "cacheDir": inv.CacheDir, "hashFast": inv.HashFast}
 		}
-		c.Emit(J{"op": "front.parse", "argv": argv, "env": env, "conv": convRecord(argv)}, impl, "front", "result="+fmt.Sprint(impl["result"]))
+		c.Emit(J{"op": "front.parse", "argv": argv, "env": env, "conv": convAll(argv)}, impl, "front", "result="+fmt.Sprint(impl["result"]))
 	}
 	// ---- paths.ops
 	comps := []string{"a", "b", "..", ".", "", "cache", "x y", "é", "..."}
